@@ -89,6 +89,9 @@ def gen_case(rng, call, forced=None):
 
 def add_responses(ns, rng, case):
     case["resp"] = ec.gen_responses(ns, rng, case)
+    # the link layer may answer in netqasm's tuples or with qlink-interface 1.0 objects (Bell state as enum
+    # member or as plain int in qlink's numbering)
+    case["resp_format"] = rng.choice(["native", "native", "qlink_enum", "qlink_int"])
     if "min_fidelity_all_at_end" in case["kw"]:
         gi = 8 if ec.resp_is_m(case["call"]) else 7
         for r in case["resp"]:
@@ -195,7 +198,7 @@ def oracle(ctx, ns, case, res):
 
 
 def strip(case):
-    return {k: case[k] for k in ("call", "kw", "node", "sock", "own_node", "remote_sock", "resp") if k in case}
+    return {k: case[k] for k in ("call", "kw", "node", "sock", "own_node", "remote_sock", "resp", "resp_format") if k in case}
 
 
 def run_stream(ctx, ns, cases, tag, rcases, hcases, meta):
